@@ -47,13 +47,16 @@ def optOf {α} (f : Sexp → Option α) : Sexp → Option (Option α)
   | .atom "-" => some none
   | e => (f e).map some
 
+def attrOf4 (n t k d : Sexp) (override : Bool) : Option AttrDecl := do
+  let name ← nameOf n
+  let ty ← tyOf t
+  let kind ← kindOf k
+  let dflt ← optOf valOf d
+  pure { name := name, ty := ty, kind := kind, dflt := dflt, override := override }
+
 def attrOf : Sexp → Option AttrDecl
-  | .list [n, t, k, d] => do
-    let name ← nameOf n
-    let ty ← tyOf t
-    let kind ← kindOf k
-    let dflt ← optOf valOf d
-    pure { name := name, ty := ty, kind := kind, dflt := dflt }
+  | .list [n, t, k, d] => attrOf4 n t k d false
+  | .list [n, t, k, d, .atom "o"] => attrOf4 n t k d true
   | _ => none
 
 def eqOf : Sexp → Option EqDecl
